@@ -137,3 +137,27 @@ def multipart_consume(model, info, art):
                                  f"data_uris {list(c.data_uris)[len(before):]} (documented {want[len(before):]}), asset nums {nums}")
         out.append(first)
     return "contradicted", f"first indices {out}: registered names are those of the datum's own indices"
+
+
+def regex_decomposition(model, info, art):
+    """end to end on a real consolidator: templates with every flag character expand like printf"""
+    import ctypes
+    from bluesky.consolidators import TIFFConsolidator
+    libc = ctypes.CDLL(None)
+    bad = []
+    for conv in ("%d", "%5d", "%05d", "%-5d", "%+5d", "% 5d", "%#5d", "%#05d", "%-#6d", "%+#4.6d", "%0#6d", "%#d", "%.6d", "%6.6d"):
+        template = "img_" + conv + ".tif"
+        sres = {"mimetype": "multipart/related;type=image/tiff", "data_key": "img", "uri": "file://localhost/tmp/",
+                "parameters": {"template": template, "chunk_shape": (1,)}, "uid": "sr", "run_start": "rs"}
+        desc = {"data_keys": {"img": {"shape": [1, 4, 4], "dtype": "array", "dtype_numpy": "<u2", "source": "x", "external": "STREAM:"}}}
+        for n in (0, 7, 123):
+            buf = ctypes.create_string_buffer(256)
+            libc.sprintf(buf, template.encode(), ctypes.c_int(n))
+            want = "file://localhost/tmp/" + buf.value.decode()
+            try:
+                got = TIFFConsolidator(sres, desc).get_datum_uri(n)
+            except Exception as e:   # noqa
+                got = f"{type(e).__name__}: {e}"
+            if got != want:
+                bad.append(f"template {template!r}, index {n}: consolidator {got!r}, printf {want!r}")
+    return ("confirmed" if bad else "contradicted"), "; ".join(bad[:4]) or "every flag character is recognised"
